@@ -113,6 +113,7 @@ Definition Q_status_live          := bit 6.    (* a terminal / recovering status
 Definition Q_final                := bit 7.    (* stored status disagrees with the runs once everything is quiet *)
 Definition Q_restart_refused      := bit 8.    (* after the end a new Start is refused *)
 Definition Q_wedge                := bit 9.
+Definition Q_wait_stale           := bit 10.   (* nothing runs: wait reported a result that is not the last run's *)
 
 (* =====================================================================
    Mon_C10
@@ -272,7 +273,10 @@ Definition mon10_step (cf : lcfg) (cur : status) (s : m10) (e : lev) : m10 :=
             (* R5: the closing status of a stopped run, and no stopped status without a stop *)
             let bad :=
               match x with
-              | UserStopped => negb (a_stopcall s)
+              | UserStopped =>
+                  (* v2 (9382932): a force stop also marks the run as intentionally stopped; when it loses the
+                     tomb's first-reason race against a transient error the run ends UserStopped *)
+                  negb (a_stopcall s) && negb (match l_engine cf with V2 => a_forcecall s | V1 => false end)
               | SystemStopped => negb (a_shutcall s)
               | Degraded => anystop && (a_fatal s =? 0)%nat && negb (a_forcecall s)
               | _ => false
@@ -318,12 +322,16 @@ Record m11 := mkM11 {
   b_pend : option nat;                 (* the run whose source was torn down and whose closing status is to come *)
   b_calls : list (nat * (bool * bool * nat));   (* call id -> (source open, status Running, seq) when issued *)
   b_restart : bool;                    (* the harness is in its restart phase *)
+  b_act : nat;                         (* number of status writes and Start calls / returns so far *)
+  b_startfl : bool;                    (* a Start call is in flight *)
+  b_wq : list (nat * nat);             (* waits issued while everything was quiet: call id -> b_act when issued *)
   b_v : N }.
 
-Definition b0 : m11 := mkM11 false 0 UserStopped [] None [] false 0.
+Definition b0 : m11 := mkM11 false 0 UserStopped [] None [] false 0 false [] 0.
 
 Definition b_flag (c : bool) (b : N) (s : m11) : m11 :=
-  if c then mkM11 (b_open s) (b_seq s) (b_status s) (b_lastend s) (b_pend s) (b_calls s) (b_restart s) (N.lor (b_v s) b) else s.
+  if c then mkM11 (b_open s) (b_seq s) (b_status s) (b_lastend s) (b_pend s) (b_calls s) (b_restart s)
+                  (b_act s) (b_startfl s) (b_wq s) (N.lor (b_v s) b) else s.
 
 Fixpoint lookup_c (id : nat) (l : list (nat * (bool * bool * nat))) : bool * bool * nat :=
   match l with [] => (false, false, 0%nat) | (j, x) :: t => if Nat.eqb j id then x else lookup_c id t end.
@@ -331,13 +339,25 @@ Fixpoint lookup_c (id : nat) (l : list (nat * (bool * bool * nat))) : bool * boo
 Fixpoint lookup_end (k : nat) (l : list (nat * status)) : option status :=
   match l with [] => None | (j, x) :: t => if Nat.eqb j k then Some x else lookup_end k t end.
 
+Fixpoint lookup_q (id : nat) (l : list (nat * nat)) : option nat :=
+  match l with [] => None | (j, x) :: t => if Nat.eqb j id then Some x else lookup_q id t end.
+
+Definition class_matches (e : ecls) (st : status) : bool :=
+  match e with
+  | CNil => match st with UserStopped | SystemStopped => true | _ => false end
+  | CFatal | CForce | CExhausted => match st with Degraded => true | _ => false end
+  | _ => true
+  end.
+
 Definition mon11_step (s : m11) (e : lev) : m11 :=
   match e with
   | EvOpen _ KSrc =>
       let s1 := b_flag (b_open s) Q_two_live s in
-      mkM11 true (S (b_seq s1)) (b_status s1) (b_lastend s1) (b_pend s1) (b_calls s1) (b_restart s1) (b_v s1)
+      mkM11 true (S (b_seq s1)) (b_status s1) (b_lastend s1) (b_pend s1) (b_calls s1) (b_restart s1)
+            (b_act s1) (b_startfl s1) (b_wq s1) (b_v s1)
   | EvTd _ KSrc =>
-      mkM11 false (b_seq s) (b_status s) (b_lastend s) (Some (b_seq s)) (b_calls s) (b_restart s) (b_v s)
+      mkM11 false (b_seq s) (b_status s) (b_lastend s) (Some (b_seq s)) (b_calls s) (b_restart s)
+            (b_act s) (b_startfl s) (b_wq s) (b_v s)
   | EvSt _ x =>
       let closing := negb (status_eqb x Running) in
       let s1 := b_flag (closing && b_open s) Q_status_live s in
@@ -345,10 +365,16 @@ Definition mon11_step (s : m11) (e : lev) : m11 :=
                   | Some k => if closing then (k, x) :: b_lastend s1 else b_lastend s1
                   | None => b_lastend s1
                   end in
-      mkM11 (b_open s1) (b_seq s1) x ends (if closing then None else b_pend s1) (b_calls s1) (b_restart s1) (b_v s1)
+      mkM11 (b_open s1) (b_seq s1) x ends (if closing then None else b_pend s1) (b_calls s1) (b_restart s1)
+            (S (b_act s1)) (b_startfl s1) (b_wq s1) (b_v s1)
   | EvCall k id =>
+      let isstart := kind_eqb k KStart in
+      let quiet := negb (b_open s) && stopped_status (b_status s) && negb (b_startfl s)
+                   && match b_pend s with None => true | Some _ => false end in
       mkM11 (b_open s) (b_seq s) (b_status s) (b_lastend s) (b_pend s)
-            ((id, (b_open s, status_eqb (b_status s) Running, b_seq s)) :: b_calls s) (b_restart s) (b_v s)
+            ((id, (b_open s, status_eqb (b_status s) Running, b_seq s)) :: b_calls s) (b_restart s)
+            (if isstart then S (b_act s) else b_act s) (b_startfl s || isstart)
+            (if kind_eqb k KWait && quiet then (id, b_act s) :: b_wq s else b_wq s) (b_v s)
   | EvRet k id e =>
       let '(wasopen, wasrunning, seq) := lookup_c id (b_calls s) in
       let same_live := wasopen && wasrunning && b_open s && Nat.eqb (b_seq s) seq in
@@ -359,22 +385,31 @@ Definition mon11_step (s : m11) (e : lev) : m11 :=
           let okclass :=
             match lookup_end seq (b_lastend s) with
             | None => true                               (* not known (yet): nothing to compare *)
-            | Some st =>
-                match e with
-                | CNil => match st with UserStopped | SystemStopped => true | _ => false end
-                | CFatal | CForce | CExhausted => match st with Degraded => true | _ => false end
-                | _ => true
-                end
+            | Some st => class_matches e st
             end in
-          b_flag (negb same_live && wasopen && wasrunning && negb okclass) Q_wait_class s1
+          let s2 := b_flag (negb same_live && wasopen && wasrunning && negb okclass) Q_wait_class s1 in
+          (* a wait issued and answered while nothing ran, nothing was being started and no status was written:
+             it reports the result of the LAST run, whose closing status is the stored status *)
+          let stale :=
+            match lookup_q id (b_wq s), b_lastend s with
+            | Some n, (k0, st) :: _ =>
+                Nat.eqb n (b_act s) && negb (b_open s) && Nat.eqb k0 (b_seq s) && status_eqb st (b_status s)
+                && negb (class_matches e st)
+            | _, _ => false
+            end in
+          b_flag stale Q_wait_stale s2
       | KStop | KStopWait | KForce =>
           b_flag (same_live && ecls_eqb e CNotRunning) Q_stop_nothing s
-      | KStart => b_flag (b_restart s && negb (is_nil e)) Q_restart_refused s
+      | KStart =>
+          let s1 := b_flag (b_restart s && negb (is_nil e)) Q_restart_refused s in
+          mkM11 (b_open s1) (b_seq s1) (b_status s1) (b_lastend s1) (b_pend s1) (b_calls s1) (b_restart s1)
+                (S (b_act s1)) false (b_wq s1) (b_v s1)
       | KStopAll => s
       end
   | EvPhase PhFinal =>
       b_flag (negb (if b_open s then status_eqb (b_status s) Running else stopped_status (b_status s))) Q_final s
-  | EvPhase PhRestart => mkM11 (b_open s) (b_seq s) (b_status s) (b_lastend s) (b_pend s) (b_calls s) true (b_v s)
+  | EvPhase PhRestart => mkM11 (b_open s) (b_seq s) (b_status s) (b_lastend s) (b_pend s) (b_calls s) true
+                               (b_act s) (b_startfl s) (b_wq s) (b_v s)
   | EvPhase PhEnd => b_flag (b_open s || negb (stopped_status (b_status s))) Q_final s
   | EvWedge => b_flag true Q_wedge s
   | _ => s
